@@ -63,6 +63,9 @@ def run(ctx):
     RS.check_reset_completeness(ctx, 'R17.4')
     check_block_keywords(ctx, V)
     check_protocol(ctx, V)
+    from .. import rules_base as RB
+    ctx.rule('R17.B', 'base model: token-type containment and token normal form behave as the protocol evaluation assumes', floor=1)
+    RB.check_base_model(ctx, 'R17.B', parts=('contains', 'flags'))
 
 
 def transfer_table(ctx):
